@@ -992,6 +992,15 @@ def tbl13_comparators(ctx):
                         want = (label == 'l<r') == asc
                         if c != want:
                             problems.append('%s: cmp = %s in an %s comparator' % (label, c, 'ascending' if asc else 'descending'))
+                    # NULL placement (C05): after every value ascending, first descending. Decided
+                    # for the string key type the planner produces for nullable strings (OptStr);
+                    # Option<OrderedFloat> has no operator instantiation on this tree.
+                    if label == 'Some/None' and 'str' in impl:
+                        want_o = -1 if asc else 1
+                        if o != want_o:
+                            problems.append('Some/None: ordering = %s, NULL must sort %s'
+                                            % ({-1: 'Less', 0: 'Equal', 1: 'Greater'}[o],
+                                               'after every value' if asc else 'first when descending'))
             decided += 1
             ctx.check('TBL-13', '%s|consistent' % impl, not problems,
                       'cmp / cmp_eq / ordering / is_less_than agree on every ordering of two keys'
